@@ -39,7 +39,7 @@ func (a *{{ $structName }}) Get{{ $fieldName }}() {{ $type }} {
 	return a.{{ $fieldName }}
 }
 
-{{ if or (eq (index $type 0) '*') (eq (slice $type 0 2) "[]") (eq (slice $type 0 3) "map") }}
+{{ if or (HasPrefix $type "*") (HasPrefix $type "[]") (HasPrefix $type "map") }}
 func copy{{ $structName }}{{ $fieldName }}(a {{ $type }}) {{ $type }} {
 	if a == nil {
 		return nil
@@ -47,7 +47,7 @@ func copy{{ $structName }}{{ $fieldName }}(a {{ $type }}) {{ $type }} {
 	{{- if eq (index $type 0) '*' }}
 	b := *a
 	return &b
-	{{- else if eq (slice $type 0 2) "[]" }}
+	{{- else if HasPrefix $type "[]" }}
 	b := make({{ $type }}, len(a))
 	copy(b, a)
 	return b
@@ -69,7 +69,7 @@ func equal{{ $structName }}{{ $fieldName }}(a, b {{ $type }}) bool {
 		return true
 	}
 	return *a == *b
-	{{- else if eq (slice $type 0 2) "[]" }}
+	{{- else if HasPrefix $type "[]" }}
 	if len(a) != len(b) {
 		return false
 	}
@@ -105,7 +105,7 @@ func (a *{{ $structName }}) DeepCopyInto(b *{{ $structName }}) {
 	{{- else }}
 	{{- $type = FieldType $tableName $field.Column $field.Schema }}
 	{{- end }}
-	{{- if or (eq (index $type 0) '*') (eq (slice $type 0 2) "[]") (eq (slice $type 0 3) "map") }}
+	{{- if or (HasPrefix $type "*") (HasPrefix $type "[]") (HasPrefix $type "map") }}
 	b.{{ $fieldName }} = copy{{ $structName }}{{ $fieldName }}(a.{{ $fieldName }})
 	{{- end }}
 	{{- end }}
@@ -138,7 +138,7 @@ func (a *{{ $structName }}) Equals(b *{{ $structName }}) bool {
 	{{- end }}
 	{{- if $i }}&&
 	{{ else }}return {{ end }}
-	{{- if or (eq (index $type 0) '*') (eq (slice $type 0 2) "[]") (eq (slice $type 0 3) "map") -}}
+	{{- if or (HasPrefix $type "*") (HasPrefix $type "[]") (HasPrefix $type "map") -}}
 	equal{{ $structName }}{{ $fieldName }}(a.{{ $fieldName }}, b.{{ $fieldName }})
 	{{- else -}}
 	a.{{ $fieldName }} == b.{{ $fieldName }}
@@ -189,6 +189,7 @@ func NewTableTemplate() *template.Template {
 			"FieldType":          FieldType,
 			"FieldTypeWithEnums": FieldTypeWithEnums,
 			"OvsdbTag":           Tag,
+			"HasPrefix":          strings.HasPrefix,
 		},
 	).Parse(extendedGenTemplate + `
 {{- define "header" }}
